@@ -150,7 +150,7 @@ def writers(prog: Program, rep: Report) -> None:
                 ok = True
             rep.check("R09.3", w.fi.qual, short(w.node), ok, what_bad="alive may only be cleared (False) or and-ed: a dead particle must never become alive again", what_ok="clears only", loc=w.fi.loc(w.node))
         if w.key in ("X", "Y"):
-            rep.check("R09.4", w.fi.qual, short(w.node), w.fi.qual == "tracker.Tracker.update", what_bad="horizontal positions are written outside Tracker.update / State.append / warm_start: the land and grid tests are bypassed", what_ok="tracker", loc=w.fi.loc(w.node))
+            rep.check("R09.4", w.fi.qual, short(w.node), prog.effective_owners(w.fi.qual) == {"tracker.Tracker.update"}, what_bad="horizontal positions are written outside Tracker.update / State.append / warm_start: the land and grid tests are bypassed", what_ok="tracker", loc=w.fi.loc(w.node))
     # in-place modification of the state position arrays through local aliases
     for fi in prog.all_functions():
         if fi.module.name in statefx.SKIP_MODULES or fi.module.name.startswith("ibms"):
